@@ -42,7 +42,7 @@ CentreV(c, ev) ==
          THEN "centre: refused although an interval fits, or answered although none fits"
     ELSE IF \E i \in Ix(ev.cs) : ev.lo[i] # Raised /\ ~D!IsCentreChoice(e, ev.size, ev.cs[i], ev.lo[i], ev.hi[i])
          THEN "centre: interval is not size preserving inside the grid with minimal centre distance"
-    ELSE IF \E i \in Ix(ev.cs) : ev.lo[i] # Raised /\ ev.lo[i] # D!CentreAlg(e, ev.size, ev.cs[i])
+    ELSE IF \E i \in Ix(ev.cs) : ev.lo[i] # Raised /\ \E l2 \in 0..(ev.lo[i] - 1) : D!CentreDist2(e, l2, ev.size, ev.cs[i]) <= D!CentreDist2(e, ev.lo[i], ev.size, ev.cs[i])
          THEN "drift: centre choice is a minimiser but not the first one"
     ELSE "ok"
 
@@ -53,7 +53,7 @@ AnchorV(c, ev) ==
          THEN "anchor: refused although an interval fits, or answered although none fits"
     ELSE IF \E i \in Ix(ev.cs) : ev.lo[i] # Raised /\ ~D!IsAnchorChoice(e, ev.size, ev.k, ev.cs[i], ev.lo[i], ev.hi[i])
          THEN "anchor: interval is not size preserving inside the grid with minimal anchor distance"
-    ELSE IF \E i \in Ix(ev.cs) : ev.lo[i] # Raised /\ ev.lo[i] # D!AnchorAlg(e, ev.size, ev.k, ev.cs[i])
+    ELSE IF \E i \in Ix(ev.cs) : ev.lo[i] # Raised /\ \E l2 \in 0..(ev.lo[i] - 1) : D!AnchorDist(e, l2, ev.size, ev.k, ev.cs[i]) <= D!AnchorDist(e, ev.lo[i], ev.size, ev.k, ev.cs[i])
          THEN "drift: anchor choice is a minimiser but not the first one"
     ELSE "ok"
 
@@ -165,7 +165,7 @@ GridWellFormed(c) ==
 
 Verdict(c) ==
     IF ~GridWellFormed(c) THEN "malformed: grid edges"
-    ELSE LET vs   == [ i \in Ix(c.ev) |-> EvV(c, c.ev[i]) ]
+    ELSE LET vs   == TLCEval([ i \in Ix(c.ev) |-> EvV(c, c.ev[i]) ])    \* evaluated once
              hard == { i \in Ix(c.ev) : vs[i] # "ok" /\ ~IsDrift(vs[i]) }
              soft == { i \in Ix(c.ev) : vs[i] # "ok" }
          IN IF hard # {} THEN vs[D!MinOf(hard)]
